@@ -11,6 +11,7 @@ type GenOpts struct {
 	Depth      int
 	Stratified bool // steer references so that most grammars are stratified (checked afterwards by Strata)
 	LRFree     bool // unguarded references only to lower-numbered nonterminals
+	Trims      bool // wrap some sub-expressions in text.LeftTrim / text.RightTrim (no reference semantics: C02/C07 only)
 	Ops        []Op // operator pool (nil: all)
 }
 
@@ -41,6 +42,8 @@ func synNullable(e *Expr) bool {
 		return false
 	case OpEmpty, OpOpt, OpMany, OpSepBy, OpNT:
 		return true
+	case OpLTrim, OpRTrim, OpSingle, OpSuppress:
+		return synNullable(e.Kids[0])
 	case OpSeqOf:
 		for _, k := range e.Kids {
 			if !synNullable(k) {
@@ -67,6 +70,20 @@ func synNullable(e *Expr) bool {
 }
 
 func (gn *generator) gen(depth int, c genCtx) *Expr {
+	e := gn.gen0(depth, c)
+	if gn.o.Trims && gn.r.Intn(5) == 0 {
+		op := OpLTrim
+		if gn.r.Intn(3) == 0 {
+			op = OpRTrim
+		}
+		w := gn.g.Mk(op, e)
+		w.C = byte(gn.r.Intn(4))
+		return w
+	}
+	return e
+}
+
+func (gn *generator) gen0(depth int, c genCtx) *Expr {
 	r, g := gn.r, gn.g
 	if depth <= 0 || r.Intn(100) < 25 {
 		switch k := r.Intn(100); {
@@ -243,6 +260,19 @@ func (g *Grammar) Sample(r *rand.Rand, e *Expr, depth int, out *[]byte, maxLen i
 			*out = (*out)[:save]
 		}
 		return false
+	case OpLTrim:
+		if r.Intn(2) == 0 {
+			*out = append(*out, " \n"[r.Intn(2)])
+		}
+		return g.Sample(r, e.Kids[0], depth+1, out, maxLen)
+	case OpRTrim:
+		if !g.Sample(r, e.Kids[0], depth+1, out, maxLen) {
+			return false
+		}
+		if r.Intn(2) == 0 {
+			*out = append(*out, " \n"[r.Intn(2)])
+		}
+		return true
 	case OpOpt:
 		if r.Intn(2) == 0 {
 			return true
